@@ -18,7 +18,7 @@ CONSTANTS Mode       \* "param" | "metric" | "measurement" | "trial" | "delta" |
 \* ------------------------------------------------------------ parameters
 ParamCases ==
   {c \in [kind : {"D", "I", "S", "C"}, scale : {"none", "LINEAR", "LOG", "REVERSE_LOG"}, dflt : {"unset", "falsy", "truthy"},
-          ext : {"INTERNAL", "BOOLEAN", "INTEGER", "FLOAT"}, depth : 1..4] :      \* depth 4: a child active under TWO parent values
+          ext : {"INTERNAL", "BOOLEAN", "INTEGER", "FLOAT"}, depth : 1..5] :      \* depth 4: a child active under TWO parent values; 5: the same child NAME under two parent values with different domains
      /\ (c.kind = "C" => c.scale = "none")
      /\ (c.scale \in {"LOG", "REVERSE_LOG"} => c.dflt # "falsy")       \* log scaling needs positive bounds: 0 is not in the domain
      /\ (c.kind = "D" => c.depth = 1)                                   \* continuous parameters have no children
@@ -42,7 +42,8 @@ TrialCases ==
   {c \in [status : {"REQUESTED", "ACTIVE", "STOPPING", "SUCCEEDED", "INFEASIBLE"}, reason : {"", "r"},
           p : ParamVals, q : {"absent", "int0", "str_empty"}, nmeas : 0..2, final : {"none", "m"},
           worker : {"none", "w"}, ctime : {"none", "us"}, dtime : {"none", "us"},
-          meta : {"none", "str", "empty_str", "ns", "ns_empty_first"}] :          \* ns_empty_first: namespace ("", "tuner")
+          meta : {"none", "str", "empty_str", "ns", "ns_empty_first", "ns_colon_chain"}] :
+          \* ns_empty_first: namespace ("", "tuner"); ns_colon_chain: ("gs://b", "c:d", "e") - colons inside non-last components
      /\ (c.status # "INFEASIBLE" => c.reason = "")
      /\ (c.status \in {"SUCCEEDED", "INFEASIBLE"} <=> c.dtime = "us")       \* completed trials carry a completion time
      /\ (c.status = "SUCCEEDED" => c.final = "m")
